@@ -11,20 +11,30 @@ from vf.core import R
 SIMS = ["ssa", "safe_ssa", "volume", "safe_volume", "delay", "safe_delay", "model_api_safe"]
 
 
-def instrument(sp):
+BIG = 1000000.0
+
+
+def instrument(sp, consumed_counters=False):
     """Reaction r additionally produces a private counter N_r (and its delayed part a counter D_r).  Products never
-    influence a rate, so the dynamics of the original species are unchanged."""
+    influence a rate, so the dynamics of the original species are unchanged.  consumed_counters: a delayed part that
+    only consumes keeps that shape - its counter is a delayed *reactant* that starts at BIG and counts down."""
     out = dict(sp, species=list(sp["species"]), x0=dict(sp["x0"]), reactions=[])
+    out["consumed_counters"] = []
     for j, rx in enumerate(sp["reactions"]):
         r2 = dict(rx, p=list(rx["p"]) + [f"N{j}"])
         out["species"].append(f"N{j}")
         out["x0"][f"N{j}"] = 0.0
         if rx.get("delay"):
             d = dict(rx["delay"])
-            d["p"] = list(d.get("p", [])) + [f"D{j}"]
-            r2["delay"] = d
             out["species"].append(f"D{j}")
-            out["x0"][f"D{j}"] = 0.0
+            if consumed_counters and d.get("r") and not d.get("p"):
+                d["r"] = list(d["r"]) + [f"D{j}"]
+                out["x0"][f"D{j}"] = BIG
+                out["consumed_counters"].append(j)
+            else:
+                d["p"] = list(d.get("p", [])) + [f"D{j}"]
+                out["x0"][f"D{j}"] = 0.0
+            r2["delay"] = d
         out["reactions"].append(r2)
     return out
 
